@@ -392,3 +392,11 @@ func (w *World) ErrEdgeEnds(fn *ssa.Function, ev ssa.Value) bool {
 	}
 	return seen
 }
+
+// lhsType: the type of the value tested against nil in a nil-test literal.
+func lhsType(l Lit) types.Type {
+	if y, _, ok := nilTest(l); ok {
+		return y.Type()
+	}
+	return types.Typ[types.Invalid]
+}
